@@ -140,6 +140,12 @@ pub fn census(v: &View, aidx: ActorIdx) -> Census {
                             slots.remove(&key(h));
                         }
                     }
+                    // the sender is dropped as soon as the send future exists
+                    Op::SendThenDrop { h, .. } => {
+                        if slots.get(&key(h)).is_some_and(|hd| hd.k == HKind::Sender) {
+                            slots.remove(&key(h));
+                        }
+                    }
                     // a clone lives inside the await
                     Op::Await { h, on_clone: true } => {
                         if let Some(hd) = slots.get(&key(h)).copied() {
